@@ -73,6 +73,11 @@ def groups():
                                         'w_advanceLine/c_advanceLine_callee', 'w_strToInt/c_strToInt_callee', 'w_strToIntSilent/c_strToIntSilent_callee'],
                                enforce='w_dispatchValue/c_dispatchValue_top'), timeout=1800,
                     bounded='BOUNDED stand-in: a RUN with at most 2 arguments (dispatchCallArgs inlined, recursion and the ARG loop unwound: --unwind 5), program table of capacity 4; nested argument values go through the callee contract'))
+    gs.append(Group('gen_dispatchProgram', ['C16', 'C01', 'C03', 'C02'], 'dispatchProgram (Compiler/src/gen.cpp)', 'c_dispatchProgram',
+                    _gen_build('gen_disp.c', 'dispatchProgram', redirect='dispatchProgram',
+                               replace=['w_dispatchArgs/c_dispatchArgs_prog', 'w_dispatchVoid/c_dispatchVoid_prog', 'w_fetchVariableRegister/c_fetchVariableRegister_prog',
+                                        'w_popSymbols/c_popSymbols_prog']), timeout=900,
+                    note='callees dispatchArgs, dispatchVoid, fetchVariableRegister, popSymbols replaced by contracts relative to the newly opened symbol table; popSymbols records its call in ghost variables'))
     gs.append(Group('gen_backpatch', ['C03', 'C01', 'C04'], 'GenState::backpatch (Compiler/src/gen.cpp)', 'c_backpatch',
                     _gen_build('gen_disp.c', 'backpatch', loops='gen_disp.loops.json.in'), timeout=1800, expect_loops=1,
                     note='loop closed by a loop contract; N12 hook: pending positions are distinct instructions of the program whose label operands exist'))
